@@ -26,7 +26,7 @@ ALLOWED_AXIOMS = []
 DETAIL = 0
 RULE = ("values: rounding boundaries k + 0.5*10^-n +- 1 ulp (k in 0, 1, 9, 99, 999, 999999, ...), 0.995, 99.995, 999.995, "
         "999999.995, values below one unit of the last digit, +-0, negatives, 10^0..10^22, 2^53, largest finite, smallest "
-        "subnormal, k/8 ties, random magnitudes 1e-9..1e18; x digits 0..9 x both flags x 6 separator pairs x 14 currencies "
+        "subnormal, k/8 ties, random magnitudes 1e-9..1e18; x digits 0..9 x both flags x 8 separator pairs (two with a multi-character thousands separator) x 14 currencies "
         "x number / percent / money / built-in units / a user-defined unit family with its own digits and flags; "
         "non-trivial = every line evaluated to an item carrying exactly the injected binary64; distinct = distinct histories")
 ASSUMPTIONS = ["currency digits / symbol / placement and unit format strings are read from /repo/src/json/config.json",
@@ -45,7 +45,8 @@ for _g in _cfg["types"]:
 CURRENCIES = [c for c in ["usd", "eur", "jpy", "bhd", "try", "gbp", "all", "btn", "mvr", "vnd", "bif", "lyd", "chf", "kwd"]
               if c in CUR]
 BUILTIN_UNITS = [u for u in ["km", "kg", "mm", "meter"] if u in UNITS]
-SEPARATORS = [(",", "."), (".", ","), (",", " "), (".", "'"), (".", ""), ("٫", "٬")]      # (decimal, thousands)
+SEPARATORS = [(",", "."), (".", ","), (",", " "), (".", "'"), (".", ""), ("٫", "٬"),      # (decimal, thousands)
+              (",", "' "), (".", "&nbsp;")]      # separators are strings: several characters, not palindromes
 FAMILY = "cseven"
 # user-defined units: (name, format, digits, round, rm); None = left to the default 2 / true / true
 CUSTOM = [("zed", "{value} zd", 0, True, False), ("yod", "<{value}>yd", 4, False, True), ("wex", "{value} wx", 3, None, None),
